@@ -7,6 +7,8 @@ package cpusuppress
 //   feature disabled  recoverCFSQuotaIfNeed, recoverCPUSetIfNeed
 //   cfsQuota policy   adjustByCfsQuota, recoverCPUSetIfNeed
 //   BECPUManager on   recoverCFSQuotaIfNeed, recoverCPUSetForBECPUManager
+//   cpuset policy under kubelet's static cpu manager policy ("static")
+//                     adjustByCPUSet -> applyBESuppressCPUSet -> recoverCPUSetIfNeed(pod level), applyCPUSetWithStaticPolicy
 // on ONE plugin object (so whatever it remembers between rounds is carried over) with mocked statesinformer / metric
 // cache, interleaved with steps of the environment: `external` (something else left other hierarchy-valid values in
 // the files), `restart` (a FRESH plugin object and executor on the same files), `expire` (cache entries gone).
@@ -17,7 +19,8 @@ package cpusuppress
 // are NOT in the round's target and the node usage leaves exactly |target| CPUs to BE, so that every correct selection of
 // |target| out of the |target| eligible CPUs is the target. A round always asks for at least two CPUs: one-CPU targets
 // are run through applyCPUSetWithNonePolicy directly, the way adjustByCPUSet calls it (old cpuset = the BE root's).
-// The rounds that leave the cpuset policy run without the LSE pod: their target is the whole BE pool.
+// The rounds that leave the cpuset policy aim at the BE pool: the whole of it, or - when an LSE pod holds pool CPUs meanwhile
+// (`lse`) - the pool without them, which may no longer cover what the BE cgroups hold (a SHIFTED pool).
 //
 // The executor handed to CPUSuppress forwards every updater, one at a time and in the same order, to the REAL
 // ResourceUpdateExecutorImpl.UpdateBatch, and after each of them logs the projection of ALL cpuset.cpus files plus the
@@ -69,10 +72,10 @@ type c12sOp struct {
 	Lay    int     `json:"lay,omitempty"`  // reset: processor layout 1 = one thread per core, 2 = two (default: rotating)
 	Old    [][]int `json:"old,omitempty"`
 	Target [][]int `json:"target,omitempty"`
-	How    string  `json:"how,omitempty"` // begin: "" = "cpuset" | "disabled" | "cfsquota" | "becpumgr"
+	How    string  `json:"how,omitempty"` // begin: "" = "cpuset" | "static" | "disabled" | "cfsquota" | "becpumgr"
 	Q      int     `json:"q,omitempty"`   // begin how=cfsquota: CPUs left to BE by the node usage (default 2)
 	LSE    []int   `json:"lse,omitempty"` // begin, rounds that leave the cpuset policy: pool CPUs an LSE pod holds meanwhile (the
-	//                                         round's target is then the pool without them; not generated, scripts only)
+	//                                         round's target is then the pool without them)
 	Nodes  []int   `json:"nodes,omitempty"`
 	To     [][]int `json:"to,omitempty"` // external: the values something else leaves in the files
 }
@@ -173,6 +176,10 @@ func (e *c12sEnv) machine(ncpu int, ht bool) {
 // the inputs of one round: which way suppressBECPU goes, how many CPUs the usage leaves to BE, which pool CPUs an LSE pod holds
 func (e *c12sEnv) round(how string, beCPUs int, lse []int) {
 	n := len(e.cpuInfo.ProcessorInfos)
+	delete(e.topo.Annotations, apiext.AnnotationKubeletCPUManagerPolicy)
+	if how == "static" {
+		e.topo.Annotations[apiext.AnnotationKubeletCPUManagerPolicy] = `{"policy":"static"}`
+	}
 	be := &corev1.Pod{
 		ObjectMeta: metav1.ObjectMeta{Namespace: "verif", Name: "be-1", UID: "uid-be-1", Labels: map[string]string{apiext.LabelPodQoS: "BE"}},
 		Status:     corev1.PodStatus{QOSClass: corev1.PodQOSBestEffort},
@@ -220,6 +227,7 @@ func (e *c12sExec) UpdateBatch(cacheable bool, updaters ...resourceexecutor.Reso
 type c12sStats struct {
 	segs, rewrites, calls, writes, sameNodes, nonUniformOld   int
 	viaRound, direct, leave, externals, restarts, afterLeave int
+	static, leaveLSE                                         int
 }
 
 type c12sSeg struct {
@@ -438,6 +446,9 @@ func (s *c12sSeg) begin(o c12sOp) {
 	if how == "cpuset" && len(cpus) < 2 {
 		via = "applyCPUSetWithNonePolicy"
 	}
+	if how == "static" && len(cpus) < 2 {
+		s.t.Fatalf("c12s: a round never asks for fewer than two CPUs (static round with target %v)", cpus)
+	}
 	s.kernelEffective()
 	cur := s.snapshot()
 	for i := range s.par {
@@ -447,7 +458,7 @@ func (s *c12sSeg) begin(o c12sOp) {
 	}
 	s.rec.Emit(vu.Ev{"op": "begin", "target": o.Target, "how": how, "q": o.Q, "lse": c12sInts(o.LSE), "via": via})
 	switch {
-	case how == "cpuset" && via == "suppressBECPU":
+	case (how == "cpuset" || how == "static") && via == "suppressBECPU":
 		in := map[int]bool{}
 		for _, c := range cpus {
 			in[c] = true
@@ -461,6 +472,9 @@ func (s *c12sSeg) begin(o c12sOp) {
 		s.env.round(how, len(cpus), lse)
 		s.r.suppressBECPU()
 		s.stats.viaRound++
+		if how == "static" {
+			s.stats.static++
+		}
 		if s.left {
 			s.stats.afterLeave++
 		}
@@ -488,6 +502,9 @@ func (s *c12sSeg) begin(o c12sOp) {
 		s.env.round(how, q, o.LSE)
 		s.r.suppressBECPU()
 		s.stats.leave++
+		if len(o.LSE) > 0 {
+			s.stats.leaveLSE++
+		}
 		s.left = true
 	default:
 		s.t.Fatalf("c12s: unknown how %q", how)
@@ -535,7 +552,7 @@ func c12sApplicable(script []c12sOp) bool {
 		if o.Op != "begin" {
 			continue
 		}
-		if len(o.Target) == 0 || len(o.Target[0]) == 0 {
+		if len(o.Target) == 0 || len(o.Target[0]) == 0 || (o.How == "static" && len(o.Target[0]) < 2) {
 			return false
 		}
 		for _, v := range o.Target {
@@ -658,7 +675,7 @@ func c12sRandom(rng *rand.Rand) []c12sOp {
 	rounds := 0
 	for st, nst := 0, 1+rng.Intn(7); st < nst || rounds == 0; st++ {
 		switch x := rng.Intn(20); {
-		case x < 10: // a cpuset round
+		case x < 10: // a cpuset round (one in six under kubelet's static cpu manager policy)
 			var cpus []int
 			for len(cpus) == 0 || (len(cpus) == 1 && rng.Intn(4) > 0) {
 				cpus = nil
@@ -671,13 +688,32 @@ func c12sRandom(rng *rand.Rand) []c12sOp {
 			if rng.Intn(6) == 0 && len(cur[0]) > 0 {
 				cpus = cur[0] // the BE root already holds it: nothing to do for the files that hold it too
 			}
-			script = append(script, c12sOp{Op: "begin", Target: c12sUniform(par, cpus)})
+			how := ""
+			if len(cpus) >= 2 && rng.Intn(6) == 0 {
+				how = "static"
+			}
+			script = append(script, c12sOp{Op: "begin", Target: c12sUniform(par, cpus), How: how})
 			cur = c12sUniform(par, cpus)
 			rounds++
-		case x < 14: // a round that leaves the cpuset policy: every BE cgroup back to the pool
+		case x < 14: // a round that leaves the cpuset policy: every BE cgroup back to the pool - without what an LSE pod holds meanwhile
 			how := []string{"disabled", "cfsquota", "becpumgr"}[rng.Intn(3)]
-			script = append(script, c12sOp{Op: "begin", Target: c12sUniform(par, pool), How: how, Q: 1 + rng.Intn(ncpu)})
-			cur = c12sUniform(par, pool)
+			var lse, tgt []int
+			if rng.Intn(5) < 2 {
+				for len(tgt) == 0 {
+					lse, tgt = nil, nil
+					for c := 0; c < ncpu; c++ {
+						if rng.Intn(3) == 0 {
+							lse = append(lse, c)
+						} else {
+							tgt = append(tgt, c)
+						}
+					}
+				}
+			} else {
+				tgt = pool
+			}
+			script = append(script, c12sOp{Op: "begin", Target: c12sUniform(par, tgt), How: how, Q: 1 + rng.Intn(ncpu), LSE: lse})
+			cur = c12sUniform(par, tgt)
 			rounds++
 		case x < 17: // something else rewrote the files; the executor no longer remembers the files that changed (or restarted)
 			to := c12sRandAssign(rng, par, pool, rng.Intn(2) == 0, cur)
@@ -742,6 +778,30 @@ func c12sCorners() [][]c12sOp {
 			sc = append(sc, c12sOp{Op: "begin", Target: c12sUniform(par, []int{1, 2})}, c12sOp{Op: "begin", Target: c12sUniform(par, pool)})
 			out = append(out, sc)
 		}
+		// a pod cgroup already holds the new cpuset while the BE root holds more (the loose pass then passes through it)
+		out = append(out, []c12sOp{
+			{Op: "reset", Par: par, Kind: "cpuset", Ver: ver, NCPU: 4, Old: [][]int{{0, 1, 2}, {0, 1}, {0, 1}, {0, 1, 2}, {0, 1, 2}}},
+			{Op: "begin", Target: c12sUniform(par, []int{0, 1})},
+			{Op: "begin", Target: c12sUniform(par, []int{1, 2, 3})},
+		})
+		// the BE pool shifts under what the BE cgroups hold: an LSE pod takes pool CPUs while the cpuset policy is left, or the
+		// round runs under kubelet's static policy (which recovers the upper levels to the pool)
+		for _, how := range []string{"disabled", "cfsquota", "becpumgr"} {
+			pool := c12sRange(4)
+			out = append(out, []c12sOp{
+				{Op: "reset", Par: par, Kind: "cpuset", Ver: ver, NCPU: 4, Old: c12sUniform(par, pool)},
+				{Op: "begin", Target: c12sUniform(par, []int{0, 1})},
+				{Op: "begin", Target: c12sUniform(par, []int{0, 3}), How: how, LSE: []int{1, 2}},
+				{Op: "begin", Target: c12sUniform(par, pool), How: how},
+				{Op: "begin", Target: c12sUniform(par, []int{1, 2})},
+			})
+		}
+		out = append(out, []c12sOp{
+			{Op: "reset", Par: par, Kind: "cpuset", Ver: ver, NCPU: 4, Old: c12sUniform(par, []int{0, 1})},
+			{Op: "begin", Target: c12sUniform(par, []int{0, 1, 2}), How: "static"},
+			{Op: "begin", Target: c12sUniform(par, []int{2, 3}), How: "static"},
+			{Op: "begin", Target: c12sUniform(par, []int{0, 1})},
+		})
 		// the cpuset policy is not in use and something else narrows cgroups BELOW the BE root, which keeps the pool; the next
 		// round (still not the cpuset policy) has them to recover
 		for _, how := range []string{"disabled", "cfsquota", "becpumgr"} {
@@ -813,7 +873,7 @@ func TestVerifC12Suppress(t *testing.T) {
 		}
 		// inputs only: what the code wrote is for TLC to judge
 		if stats.calls == 0 || stats.sameNodes == 0 || stats.nonUniformOld == 0 || stats.viaRound == 0 || stats.leave == 0 ||
-			stats.afterLeave == 0 || stats.externals == 0 || stats.restarts == 0 {
+			stats.afterLeave == 0 || stats.externals == 0 || stats.restarts == 0 || stats.static == 0 || stats.leaveLSE == 0 {
 			t.Fatalf("c12s: vacuous run %+v", *stats)
 		}
 	}
